@@ -265,8 +265,15 @@ func sum(parts ...[]byte) string {
 	return fmt.Sprintf("%x", h.Sum(nil)[:12])
 }
 
+// enc is what a transcript line records about a resulting point: its encodings, and whether the OBJECT is a valid
+// representative at all (raw coordinates on the curve or (0, Y != 0, 0), flag set) - a degenerate (0,0,0) encodes like
+// the identity and compares Equal to everything, but it is not the same result.
 func enc(p *secp256k1.Point) []byte {
-	return []byte(string(p.UncompressedBytes()) + "|" + string(p.CompressedBytes()))
+	if p == nil {
+		return []byte("nil")
+	}
+	_, bad := lib.PTVal(p)
+	return []byte(string(p.UncompressedBytes()) + "|" + string(p.CompressedBytes()) + "|" + bad)
 }
 
 func transcript(th bool) []string {
@@ -454,6 +461,63 @@ func transcript(th bool) []string {
 						})
 					}
 				}
+			}
+		}
+		// uninitialised operands: both builds refuse (panic) or both compute - and then the same thing
+		for variant := 0; variant < 2; variant++ {
+			for n := 1; n <= 3; n++ {
+				for zpos := 0; zpos < n; zpos++ {
+					for _, zs := range []int{0, 4} {
+						key := fmt.Sprintf("uninit-shape msm variant%d n%d zero-value point at %d scalar#%d", variant, n, zpos, zs)
+						lines = append(lines, key+" "+func() string {
+							var res string
+							pn := lib.Try(func() {
+								var ss []*secp256k1.Scalar
+								var ps []*secp256k1.Point
+								for i := 0; i < n; i++ {
+									ss = append(ss, lib.MkSC(sv[4]))
+									ps = append(ps, lib.MkPTRep(pvs[3].p, big.NewInt(3)))
+								}
+								ss[zpos], ps[zpos] = lib.MkSC(sv[zs]), new(secp256k1.Point)
+								v := new(secp256k1.Point)
+								if variant == 0 {
+									v.MultiScalarMult(ss, ps)
+								} else {
+									v.MultiScalarMultVartime(ss, ps)
+								}
+								res = "computed " + sum(enc(v))
+							})
+							if pn != "" {
+								return "refused"
+							}
+							return res
+						}())
+					}
+				}
+			}
+		}
+		for _, zs := range []int{0, 4} {
+			for op := 0; op < 3; op++ {
+				key := fmt.Sprintf("uninit-shape op%d scalar#%d", op, zs)
+				lines = append(lines, key+" "+func() string {
+					var res string
+					pn := lib.Try(func() {
+						v := new(secp256k1.Point)
+						switch op {
+						case 0:
+							v.ScalarMult(lib.MkSC(sv[zs]), new(secp256k1.Point))
+						case 1:
+							v.DoubleScalarMultBasepointVartime(lib.MkSC(sv[2]), lib.MkSC(sv[zs]), new(secp256k1.Point))
+						case 2:
+							v.Add(lib.MkPTRep(pvs[3].p, big.NewInt(3)), new(secp256k1.Point))
+						}
+						res = "computed " + sum(enc(v))
+					})
+					if pn != "" {
+						return "refused"
+					}
+					return res
+				}())
 			}
 		}
 		for pi := range pvs {
